@@ -1077,6 +1077,7 @@ package server
 //@     invariant forall j int :: pos0G <= j && j < $itPos[entityLocatorIterator] ==> kcl(K(txnG, j)) == 1 && k64at2(K(txnG, j)) == internalID
 //@     invariant previousDatasetID != 0 ==> pos0G <= accG && accG < $itPos[entityLocatorIterator] && k32at10(K(txnG, accG)) == previousDatasetID && arrOf(prevValueBytes) == valG
 //@     invariant previousDatasetID == 0 ==> accG == 0 - 1
+//@     invariant forall i int :: 0 <= i && i < len(partials) ==> partials[i] != nil
 //@     invariant forall d uint32 :: has(emittedG, d) ==> d < previousDatasetID
 //@     invariant [C06,C01:no-eligible-version-is-passed-over] forall j int :: pos0G <= j && j < $itPos[entityLocatorIterator] && krid(K(txnG, j)) <= at && !(has(s.deletedDatasets, k32at10(K(txnG, j))) && s.deletedDatasets[k32at10(K(txnG, j))]) && (len(targetDatasetIds) == 0 || (exists k int :: 0 <= k && k < len(targetDatasetIds) && targetDatasetIds[k] == k32at10(K(txnG, j)))) ==> j <= accG
 //@   loop 2
